@@ -305,6 +305,12 @@ def run(tier, seed):
             pick = [rot[0], rot[len(rot) // 2], rot[-1]]
             parts += [(tname, a, b) for a in pick for b in pick]
     total.merge(pmap(part, parts, (ts, O.MODES)))
+    # units of equal scale (the result keeps the called quantity's unit)
+    alias = [('Volume', a, b) for a in ('l', 'dm³', 'ml', 'cm³')
+             for b in ('l', 'dm³', 'ml', 'cm³')]
+    alias += [('Energy', a, b) for a in ('J', 'Nm', 'Ws')
+              for b in ('J', 'Nm', 'Ws')]
+    total.merge(pmap(part, alias, (ts[::3], O.MODES)))
     # a user type with negatively scaled units (the quantum itself is given
     # in positively scaled ones)
     total.merge(pmap(part, [('NG', a, b) for a in ('g0', 'gneg', 'kgneg')
